@@ -2,7 +2,9 @@
    Specification._calculate_sro (interface.py).  Executable definitions only.
 
    Specifications are numbered [nat]; a graph maps a node to its ordered base list.
-   C3 compares by identity (``is``); identity is equality of numbers here. *)
+   C3 compares by identity (``is``); identity is equality of numbers here.
+   Checked line by line against ro.py / interface.py for property C03 (Proofs/Ro.v, Tie/C03.v);
+   [find_next] is [find_from] on the whole list, [iro_of] / [wfb] / [nodup_b] were added. *)
 From Coq Require Import List Arith Bool.
 Import ListNotations.
 
